@@ -667,17 +667,29 @@ func (c *Ctx) funcxInapplicable(names []string, note func(k, bad, undec string))
 								if to := funcNeeds(n, pos); to != "" && to != a.typ && refused(a, to) == "yes" {
 									mustFail = to
 								}
+								var held []mv
+								var before []string
 								outs := h.calc(n, false, func() []mv {
 									var ps []mv
+									before = before[:0]
 									for i := 0; i < cnt; i++ {
 										k := a
 										if i != pos {
 											k = base[funcNeeds(n, i)]
 										}
-										ps = append(ps, h.variant(k.typ, k.payload))
+										v := h.variant(k.typ, k.payload)
+										ps = append(ps, v)
+										before = append(before, h.typeOf(v)+":"+h.payloadOf(v))
 									}
+									held = ps
 									return ps
 								})
+								// whatever the answer, the arguments are the caller's
+								for i, v := range held {
+									if now := h.typeOf(v) + ":" + h.payloadOf(v); i < len(before) && now != before[i] {
+										note("arguments-unchanged", fmt.Sprintf("%s changes its argument %d from %s to %s: arguments belong to the caller (constants and variables of the compiled expression)", where, i+1, before[i], now), "")
+									}
+								}
 								for _, oc := range outs {
 									switch {
 									case oc.kind == "opaque":
